@@ -94,6 +94,8 @@ pub struct Ctx {
     pub inner_dispatches: Vec<AtomicU32>,
     /// builder id -> `format!("{:?}", builder)` taken right before the builder is consumed
     pub debug_texts: Mutex<std::collections::BTreeMap<usize, Result<String, String>>>,
+    /// what `print_par_seq` wrote to standard output, per builder
+    pub printed_texts: Mutex<std::collections::BTreeMap<usize, String>>,
 }
 
 /// bumped by the panic hook for the lane whose thread panicked: gates of that lane open at once
@@ -171,6 +173,7 @@ impl Ctx {
             rdv: Mutex::new(None),
             inner_dispatches: av(n, || AtomicU32::new(0)),
             debug_texts: Mutex::new(Default::default()),
+            printed_texts: Mutex::new(Default::default()),
         })
     }
 
